@@ -171,6 +171,9 @@ def to_query(a):
         return query.TermRange(a["f"], term_text(a["lo"]) if a["haslo"] else None,
                                term_text(a["hi"]) if a["hashi"] else None,
                                startexcl=a["loexcl"], endexcl=a["hiexcl"], boost=b)
+    if op == "colq":
+        v = a["v"]
+        return query.ColumnQuery(a["f"], v if a["rel"] == "eq" else (lambda x, v=v: x <= v))
     if op == "numrange":
         return query.NumericRange(a["f"], a["lo"] if a["haslo"] else None, a["hi"] if a["hashi"] else None,
                                   startexcl=a["loexcl"], endexcl=a["hiexcl"], boost=b)
